@@ -7,7 +7,8 @@ use swc_common::SyntaxContext;
 use swc_common::{FilePathMapping, sync::Lrc};
 use swc_ecma_ast::Module;
 use swc_ecma_ast::{
-    ArrayLit, BindingIdent, Decl, Expr, ExprOrSpread, Ident, KeyValueProp, Lit, ModuleItem,
+    ArrayLit, BindingIdent, ComputedPropName, Decl, Expr, ExprOrSpread, Ident, KeyValueProp, Lit,
+    ModuleItem,
     NewExpr, Null, ObjectLit, Pat, Prop, PropName, PropOrSpread, Regex, Stmt, Str, VarDecl,
     VarDeclKind, VarDeclarator,
 };
@@ -1041,13 +1042,22 @@ fn print_runtype(schema: &Runtype, named_schemas: &[NamedSchema], ctx: &mut Prin
                 props: mapped
                     .iter()
                     .map(|(key, value)| {
+                        let name = Str {
+                            span: DUMMY_SP,
+                            value: key.clone().into(),
+                            raw: None,
+                        };
                         PropOrSpread::Prop(
                             Prop::KeyValue(KeyValueProp {
-                                key: PropName::Str(Str {
-                                    span: DUMMY_SP,
-                                    value: key.clone().into(),
-                                    raw: None,
-                                }),
+                                // { "__proto__": v } sets the prototype of the table; { ["__proto__"]: v } declares the property
+                                key: if key == "__proto__" {
+                                    PropName::Computed(ComputedPropName {
+                                        span: DUMMY_SP,
+                                        expr: Expr::Lit(Lit::Str(name)).into(),
+                                    })
+                                } else {
+                                    PropName::Str(name)
+                                },
                                 value: value.clone().into(),
                             })
                             .into(),
